@@ -306,16 +306,24 @@ Ltac start_ins h0 n W0 h W D :=
 
 Ltac adj_tac := unfold adjacent; repeat split; auto; try congruence; try solve [intro; subst; contra].
 
-Theorem append_ok dbg h0 s n : wf h0 -> exists h', append dbg h0 s n = Ok h' /\ wf h'.
+Lemma append_linked dbg h0 s n : wf h0 ->
+  exists h', append dbg h0 s n = Ok h' /\
+             adjacent (detach h0 n) n (Some s) (last (detach h0 n) s) None /\
+             linked (detach h0 n) h' n (Some s) (last (detach h0 n) s) None.
 Proof.
   intro W0. unfold append. start_ins h0 n W0 h W D.
   destruct (last h s) as [l|] eqn:EL; autorewrite with gs.
   - fwd h W. replace (next h l) with (@None id) by congruence. simpl. rewrite andb_false_r. simpl.
-    eexists; split; [reflexivity|].
-    apply (linked_wf h _ n (Some s) (Some l) None W D); [adj_tac | link_fields h W].
+    eexists; split; [reflexivity|]. split; [adj_tac | link_fields h W].
   - fwd h W. replace (first h s) with (@None id) by congruence. simpl. rewrite andb_false_r. simpl.
-    eexists; split; [reflexivity|].
-    apply (linked_wf h _ n (Some s) None None W D); [adj_tac | link_fields h W].
+    eexists; split; [reflexivity|]. split; [adj_tac | link_fields h W].
+Qed.
+
+Theorem append_ok dbg h0 s n : wf h0 -> exists h', append dbg h0 s n = Ok h' /\ wf h'.
+Proof.
+  intro W0. destruct (append_linked dbg h0 s n W0) as (h' & E & A & L).
+  exists h'. split; [exact E|]. destruct (detach_wf h0 n W0) as [W D].
+  eapply linked_wf; eauto.
 Qed.
 
 Theorem prepend_ok dbg h0 s n : wf h0 -> exists h', prepend dbg h0 s n = Ok h' /\ wf h'.
@@ -498,3 +506,311 @@ Proof.
     split; [exact (wf_fl h W) | exact (wf_ends h W)].
   - intros (A & B & C & D & E & F & G & H). constructor; auto.
 Qed.
+
+(* ------------------------------------------------------------------ abstraction to children lists *)
+(* the list of nodes met from o along nx *)
+Inductive chain (nx : id -> option id) : option id -> list id -> Prop :=
+| chain_nil : chain nx None []
+| chain_cons x l : chain nx (nx x) l -> chain nx (Some x) (x :: l).
+
+Definition kids (h : heap) (p : id) (l : list id) : Prop := chain (next h) (first h p) l.
+
+Lemma chain_fun nx o l1 : chain nx o l1 -> forall l2, chain nx o l2 -> l1 = l2.
+Proof.
+  induction 1; intros l2 C; inversion C; subst; auto. f_equal. auto.
+Qed.
+
+Lemma chain_of_ends nx x : ends nx x -> exists l, chain nx (Some x) l.
+Proof.
+  induction 1 as [x E | x m E _ (l & IH)].
+  - exists [x]. constructor. rewrite E. constructor.
+  - exists (x :: l). constructor. rewrite E. exact IH.
+Qed.
+
+Lemma kids_exists h p : wf h -> exists l, kids h p l.
+Proof.
+  intro W. unfold kids. destruct (first h p) as [f|].
+  - apply chain_of_ends. apply (wf_ends h W).
+  - exists []. constructor.
+Qed.
+
+Lemma chain_parent h p : wf h -> forall o l, chain (next h) o l ->
+  (forall x, o = Some x -> parent h x = Some p) -> forall x, In x l -> parent h x = Some p.
+Proof.
+  intros W o l C. induction C as [|x l C IH]; intros P y I.
+  - destruct I.
+  - destruct I as [<-|I]; [auto|]. apply IH; auto.
+    intros z E. rewrite <- (wf_sib h W x z E). auto.
+Qed.
+
+Lemma kids_parent h p l : wf h -> kids h p l -> forall x, In x l -> parent h x = Some p.
+Proof.
+  intros W K. eapply chain_parent; eauto. intros x E. apply (wf_first h W); auto.
+Qed.
+
+Lemma chain_last_none nx o l : chain nx o l -> forall x, In x l -> nx x = None -> exists l0, l = l0 ++ [x].
+Proof.
+  induction 1 as [|y l C IH]; intros x I E.
+  - destruct I.
+  - destruct I as [<-|I].
+    + rewrite E in C. inversion C. exists []. reflexivity.
+    + destruct (IH x I E) as (l0 & ->). exists (y :: l0). reflexivity.
+Qed.
+
+(* removing a *)
+Lemma chain_remove nx nx' a :
+  nx a <> Some a ->
+  (forall x, x <> a -> nx' x = if opt_is (nx x) a then nx a else nx x) ->
+  forall o l, chain nx o l ->
+  chain nx' (if opt_is o a then nx a else o) (filter (fun x => negb (Nat.eqb x a)) l).
+Proof.
+  intros NS H o l C. induction C as [|x l C IH]; simpl.
+  - constructor.
+  - destruct (Nat.eqb_spec x a) as [->|N]; simpl.
+    + assert (E : opt_is (nx a) a = false).
+      { destruct (nx a) as [y|]; simpl; auto. apply Nat.eqb_neq. congruence. }
+      rewrite E in IH. exact IH.
+    + constructor. rewrite (H x N). exact IH.
+Qed.
+
+(* appending the fresh node n after the last element t *)
+Lemma chain_snoc nx nx' n t :
+  nx' n = None -> nx t = None -> t <> n ->
+  (forall x, x <> n -> nx' x = if Nat.eqb x t then Some n else nx x) ->
+  forall o l, chain nx o l -> ~ In n l -> In t l -> chain nx' o (l ++ [n]).
+Proof.
+  intros Hn Ht TN H o l C. induction C as [|x l C IH]; intros NI IT.
+  - destruct IT.
+  - simpl. constructor. assert (x <> n) by (intro; subst; apply NI; left; auto).
+    rewrite (H x); auto. destruct (Nat.eqb_spec x t) as [->|N].
+    + rewrite Ht in C. inversion C. simpl. constructor. rewrite Hn. constructor.
+    + apply IH.
+      * intro. apply NI. right. auto.
+      * destruct IT; [congruence | auto].
+Qed.
+
+Lemma chain_frame nx nx' o l : chain nx o l -> (forall x, In x l -> nx' x = nx x) -> chain nx' o l.
+Proof.
+  induction 1 as [|x l C IH]; intro H.
+  - constructor.
+  - constructor. rewrite H by (left; auto). apply IH. intros; apply H; right; auto.
+Qed.
+
+Definition remove_id (a : id) (l : list id) : list id := filter (fun x => negb (Nat.eqb x a)) l.
+
+Theorem kids_unlinked h h' a p l : wf h -> unlinked h h' a -> kids h p l -> kids h' p (remove_id a l).
+Proof.
+  intros W (Up & Upv & Unx & Uf & Ul) K. unfold kids in *.
+  pose proof (chain_remove (next h) (next h') a (wf_next_not_self h a W)) as R.
+  assert (H : forall x, x <> a -> next h' x = if opt_is (next h x) a then next h a else next h x).
+  { intros x N. rewrite Unx. destruct (Nat.eqb_spec x a); [congruence|].
+    destruct (prev h a) as [q|] eqn:EP; simpl.
+    - destruct (Nat.eqb_spec q x).
+      + subst. fwd h W. replace (next h x) with (Some a) by congruence. simpl. rewrite Nat.eqb_refl. auto.
+      + destruct (next h x) as [y|] eqn:EN; simpl; auto. destruct (Nat.eqb_spec y a); auto.
+        subst. fwd h W. congruence.
+    - destruct (next h x) as [y|] eqn:EN; simpl; auto. destruct (Nat.eqb_spec y a); auto.
+      subst. fwd h W. congruence. }
+  specialize (R H _ _ K).
+  replace (first h' p) with (if opt_is (first h p) a then next h a else first h p); [exact R|].
+  rewrite Uf. destruct (first h p) as [f|] eqn:EF; simpl.
+  - destruct (Nat.eqb_spec f a).
+    + subst. fwd h W. replace (parent h a) with (Some p) by congruence.
+      replace (prev h a) with (@None id) by congruence. simpl. rewrite Nat.eqb_refl. auto.
+    + destruct (parent h a) as [q|] eqn:EPa; simpl; auto. destruct (Nat.eqb_spec q p); simpl; auto.
+      destruct (prev h a) eqn:EPv; simpl; auto. subst. fwd h W. congruence.
+  - destruct (parent h a) as [q|] eqn:EPa; simpl; auto. destruct (Nat.eqb_spec q p); simpl; auto.
+    destruct (prev h a) eqn:EPv; simpl; auto. subst. fwd h W. congruence.
+Qed.
+
+Lemma chain_snoc' nx nx' n t :
+  nx' n = None -> nx t = None -> t <> n ->
+  (forall x, x <> n -> nx' x = if Nat.eqb t x then Some n else nx x) ->
+  forall o l, chain nx o l -> ~ In n l -> In t l -> chain nx' o (l ++ [n]).
+Proof.
+  intros Hn Ht TN H. apply (chain_snoc nx nx' n t); auto.
+  intros x N. rewrite (H x N). rewrite (Nat.eqb_sym t x). reflexivity.
+Qed.
+
+Lemma reach_in_chain nx f t : reach nx f t -> forall l, chain nx (Some f) l -> In t l.
+Proof.
+  induction 1 as [x | x y z E _ IH]; intros l C; inversion C; subst.
+  - left; auto.
+  - right. apply IH. rewrite <- E. assumption.
+Qed.
+
+Theorem kids_linked_append h h' n s l :
+  wf h -> detached h n -> linked h h' n (Some s) (last h s) None -> kids h s l ->
+  kids h' s (l ++ [n]) /\ (forall p l', p <> s -> kids h p l' -> kids h' p l').
+Proof.
+  intros W D (Up & Upv & Unx & Uf & Ul) K.
+  destruct D as (D1 & D2 & D3).
+  assert (NI : forall p l', kids h p l' -> ~ In n l').
+  { intros p l' K' I. pose proof (kids_parent h p l' W K' n I). congruence. }
+  unfold kids in *. destruct (last h s) as [t|] eqn:EL; simpl in *.
+  - assert (TN : t <> n) by (intro; subst; fwd h W; congruence).
+    split.
+    + rewrite Uf. rewrite andb_false_r.
+      destruct (first h s) as [f|] eqn:EF; [|fwd h W; congruence].
+      destruct (wf_first_reaches_last h s f W EF) as (t' & L' & R).
+      assert (t' = t) by congruence. subst t'.
+      apply (chain_snoc' (next h) (next h') n t); auto.
+      * rewrite Unx, Nat.eqb_refl. reflexivity.
+      * apply (wf_last h W s t EL).
+      * intros x N. rewrite Unx. destruct (Nat.eqb_spec x n); [congruence | reflexivity].
+      * apply (NI s). unfold kids. rewrite EF. exact K.
+      * eapply reach_in_chain; eauto.
+    + intros p l' N K'. rewrite Uf. rewrite andb_false_r.
+      apply (chain_frame (next h)); auto. intros x I. rewrite Unx.
+      assert (x <> n) by (intro; subst; eapply NI; eauto).
+      destruct (Nat.eqb_spec x n); [congruence|].
+      destruct (Nat.eqb_spec t x); auto. subst.
+      pose proof (kids_parent h p l' W K' x I). fwd h W. congruence.
+  - split.
+    + assert (EF : first h s = None) by (apply (wf_fl h W); auto).
+      rewrite EF in K. inversion K. subst. rewrite Uf. rewrite Nat.eqb_refl. simpl.
+      constructor. rewrite Unx, Nat.eqb_refl. constructor.
+    + intros p l' N K'. rewrite Uf. destruct (Nat.eqb_spec s p); [congruence|]. simpl.
+      apply (chain_frame (next h)); auto. intros x I. rewrite Unx.
+      assert (x <> n) by (intro; subst; eapply NI; eauto).
+      destruct (Nat.eqb_spec x n); [congruence | reflexivity].
+Qed.
+
+(* a.detach() removes a from every children list (it is in at most one) *)
+Theorem arena_abs_detach h a p l : wf h -> kids h p l -> kids (detach h a) p (remove_id a l).
+Proof.
+  intros W K. apply (kids_unlinked h _ a p l W); auto. apply detach_unlinked.
+  - apply wf_next_not_self; auto.
+  - apply wf_prev_not_self; auto.
+Qed.
+
+(* s.append(n): n leaves the children list it was in and becomes the last child of s *)
+Theorem arena_abs_append dbg h s n : wf h ->
+  exists h', append dbg h s n = Ok h' /\
+    (forall l, kids h s l -> kids h' s (remove_id n l ++ [n])) /\
+    (forall p l, p <> s -> kids h p l -> kids h' p (remove_id n l)).
+Proof.
+  intro W. destruct (append_linked dbg h s n W) as (h' & E & A & L).
+  destruct (detach_wf h n W) as [W1 D1].
+  exists h'. split; [exact E|]. split.
+  - intros l K. refine (proj1 (kids_linked_append (detach h n) h' n s (remove_id n l) W1 D1 L _)).
+    apply arena_abs_detach; auto.
+  - intros p l N K.
+    destruct (kids_exists (detach h n) s W1) as (ls & Ks).
+    apply (proj2 (kids_linked_append (detach h n) h' n s ls W1 D1 L Ks) p _ N).
+    apply arena_abs_detach; auto.
+Qed.
+
+(* the children list of every node exists and is unique *)
+Theorem kids_functional h p : wf h -> exists l, kids h p l /\ forall l', kids h p l' -> l' = l.
+Proof.
+  intro W. destruct (kids_exists h p W) as (l & K). exists l. split; auto.
+  intros l' K'. eapply chain_fun; eauto.
+Qed.
+
+(* ------------------------------------------------------------------ the executable checker wf_b *)
+Lemma opt_is_true o x : opt_is o x = true <-> o = Some x.
+Proof.
+  destruct o as [y|]; simpl; split; intro H; try discriminate.
+  - apply Nat.eqb_eq in H. congruence.
+  - inversion H. apply Nat.eqb_refl.
+Qed.
+
+Lemma in_range_some n o x : in_range n o = true -> o = Some x -> x < n.
+Proof. intros H ->. simpl in H. apply Nat.ltb_lt. exact H. Qed.
+
+Lemma ends_b_sound f h x : ends_b f h x = true -> ends (next h) x.
+Proof.
+  revert x. induction f as [|f IH]; intros x H; simpl in H; [discriminate|].
+  destruct (next h x) as [y|] eqn:E.
+  - apply ends_cons with y; auto.
+  - apply ends_nil; auto.
+Qed.
+
+Definition supported (n : nat) (h : heap) : Prop := forall i, n <= i -> h i = new_cell.
+
+Theorem wf_b_sound n h : supported n h -> wf_b n h = true -> wf h.
+Proof.
+  intros S B. unfold wf_b in B. rewrite forallb_forall in B.
+  assert (N : forall x, x < n -> wf_node_b n h x = true).
+  { intros x L. apply B. apply in_seq. lia. }
+  clear B.
+  assert (OUT : forall x, n <= x -> parent h x = None /\ prev h x = None /\ next h x = None /\ first h x = None /\ last h x = None).
+  { intros x L. unfold parent, prev, next, first, last. rewrite (S x L). simpl. auto. }
+  assert (IN : forall x, x < n ->
+     (in_range n (parent h x) = true /\ in_range n (prev h x) = true /\ in_range n (next h x) = true /\
+      in_range n (first h x) = true /\ in_range n (last h x) = true) /\
+     (forall m, m < n -> Bool.eqb (opt_is (next h x) m) (opt_is (prev h m) x) = true) /\
+     (forall c, first h x = Some c -> parent h c = Some x /\ prev h c = None) /\
+     (forall c, last h x = Some c -> parent h c = Some x /\ next h c = None) /\
+     (forall m, next h x = Some m -> parent h x = parent h m) /\
+     (forall p, parent h x = Some p -> (prev h x = None -> first h p = Some x) /\ (next h x = None -> last h p = Some x)) /\
+     (first h x = None <-> last h x = None) /\
+     ends (next h) x).
+  { intros x L. specialize (N x L). unfold wf_node_b in N.
+    apply andb_prop in N; destruct N as [N EN].
+    apply andb_prop in N; destruct N as [N FL].
+    apply andb_prop in N; destruct N as [N HT].
+    apply andb_prop in N; destruct N as [N SIB].
+    apply andb_prop in N; destruct N as [N LA].
+    apply andb_prop in N; destruct N as [N FI].
+    apply andb_prop in N; destruct N as [N NP].
+    apply andb_prop in N; destruct N as [N R5].
+    apply andb_prop in N; destruct N as [N R4].
+    apply andb_prop in N; destruct N as [N R3].
+    apply andb_prop in N; destruct N as [R1 R2].
+    split; [auto|].
+    split. { intros m Lm. rewrite forallb_forall in NP. apply NP. apply in_seq. lia. }
+    split. { intros c E. rewrite E in FI. apply andb_prop in FI. destruct FI as [A B].
+             apply opt_is_true in A. split; auto. destruct (prev h c); [discriminate | reflexivity]. }
+    split. { intros c E. rewrite E in LA. apply andb_prop in LA. destruct LA as [A B].
+             apply opt_is_true in A. split; auto. destruct (next h c); [discriminate | reflexivity]. }
+    split. { intros m E. rewrite E in SIB. destruct (parent h x), (parent h m); simpl in SIB; try discriminate; auto.
+             apply Nat.eqb_eq in SIB. congruence. }
+    split. { intros p E. rewrite E in HT. apply andb_prop in HT. destruct HT as [A B]. split; intro K.
+             - rewrite K in A. simpl in A. apply opt_is_true in A. exact A.
+             - rewrite K in B. simpl in B. apply opt_is_true in B. exact B. }
+    split. { split; intro E; rewrite E in FL; simpl in FL.
+             - destruct (last h x); [discriminate | reflexivity].
+             - destruct (first h x); [discriminate | reflexivity]. }
+    eapply ends_b_sound; eauto. }
+  assert (DEC : forall x, x < n \/ n <= x) by (intro; lia).
+  constructor.
+  - intros a m. split; intro E.
+    + destruct (DEC a) as [La|La]; [|destruct (OUT a La) as (_ & _ & K & _); congruence].
+      destruct (IN a La) as ((_ & _ & R & _) & NP & _).
+      pose proof (in_range_some _ _ _ R E) as Lm. specialize (NP m Lm).
+      rewrite E in NP. simpl in NP. rewrite Nat.eqb_refl in NP. apply eqb_prop in NP. symmetry in NP.
+      apply opt_is_true in NP. exact NP.
+    + destruct (DEC m) as [Lm|Lm]; [|destruct (OUT m Lm) as (_ & K & _); congruence].
+      destruct (IN m Lm) as ((_ & R & _) & _).
+      pose proof (in_range_some _ _ _ R E) as La.
+      destruct (IN a La) as (_ & NP & _). specialize (NP m Lm).
+      rewrite E in NP. simpl in NP. rewrite Nat.eqb_refl in NP. apply eqb_prop in NP.
+      apply opt_is_true in NP. exact NP.
+  - intros p c E. destruct (DEC p) as [L|L]; [|destruct (OUT p L) as (_ & _ & _ & K & _); congruence].
+    destruct (IN p L) as (_ & _ & F & _). auto.
+  - intros p c E. destruct (DEC p) as [L|L]; [|destruct (OUT p L) as (_ & _ & _ & _ & K); congruence].
+    destruct (IN p L) as (_ & _ & _ & F & _). auto.
+  - intros a m E. destruct (DEC a) as [L|L]; [|destruct (OUT a L) as (_ & _ & K & _); congruence].
+    destruct (IN a L) as (_ & _ & _ & _ & F & _). auto.
+  - intros c p E1 E2. destruct (DEC c) as [L|L]; [|destruct (OUT c L) as (K & _); congruence].
+    destruct (IN c L) as (_ & _ & _ & _ & _ & F & _). apply (F p E1); auto.
+  - intros c p E1 E2. destruct (DEC c) as [L|L]; [|destruct (OUT c L) as (K & _); congruence].
+    destruct (IN c L) as (_ & _ & _ & _ & _ & F & _). apply (F p E1); auto.
+  - intro p. destruct (DEC p) as [L|L].
+    + destruct (IN p L) as (_ & _ & _ & _ & _ & _ & F & _). exact F.
+    + destruct (OUT p L) as (_ & _ & _ & K1 & K2). rewrite K1, K2. tauto.
+  - intro x. destruct (DEC x) as [L|L].
+    + destruct (IN x L) as (_ & _ & _ & _ & _ & _ & _ & F). exact F.
+    + apply ends_nil. destruct (OUT x L) as (_ & _ & K & _). exact K.
+Qed.
+
+Lemma heap_of_dump_supported d : supported (List.length d) (heap_of_dump d).
+Proof.
+  intros i L. unfold heap_of_dump. rewrite nth_overflow by exact L. reflexivity.
+Qed.
+
+(* a dump accepted by wf_b denotes a consistent heap *)
+Theorem wf_b_dump_sound d : wf_b (List.length d) (heap_of_dump d) = true -> wf (heap_of_dump d).
+Proof. apply wf_b_sound. apply heap_of_dump_supported. Qed.
